@@ -686,9 +686,16 @@ func adjustForAnchors(pf prefilter.Prefilter, strategy Strategy, re *syntax.Rege
 
 // hasNonLineAnchors checks if the pattern has anchors other than (?m)^ line start.
 // Returns true for \b, $, \A, \z, or non-multiline ^.
+// It also returns true for a (?m)^ that does not lead every alternation branch
+// (e.g. `(?m:^)abc|xyz`, `(foo|(?m:^)bar)x`): WrapLineAnchor checks the line start
+// of every candidate, which is only equivalent to the pattern when every match
+// must begin with (?m)^.
 func hasNonLineAnchors(re *syntax.Regexp) bool {
 	if re == nil {
 		return false
+	}
+	if hasAnchorAssertions(re) && !isLineStartAnchored(re) {
+		return true
 	}
 	switch re.Op {
 	case syntax.OpBeginLine:
@@ -700,6 +707,35 @@ func hasNonLineAnchors(re *syntax.Regexp) bool {
 		if hasNonLineAnchors(sub) {
 			return true
 		}
+	}
+	return false
+}
+
+// isLineStartAnchored reports whether every match of re must begin with a (?m)^
+// assertion and re contains no assertion anywhere else.
+func isLineStartAnchored(re *syntax.Regexp) bool {
+	switch re.Op {
+	case syntax.OpBeginLine:
+		return true
+	case syntax.OpCapture:
+		return isLineStartAnchored(re.Sub[0])
+	case syntax.OpAlternate:
+		for _, sub := range re.Sub {
+			if !isLineStartAnchored(sub) {
+				return false
+			}
+		}
+		return len(re.Sub) > 0
+	case syntax.OpConcat:
+		if len(re.Sub) == 0 || !isLineStartAnchored(re.Sub[0]) {
+			return false
+		}
+		for _, sub := range re.Sub[1:] {
+			if hasAnchorAssertions(sub) {
+				return false
+			}
+		}
+		return true
 	}
 	return false
 }
